@@ -175,7 +175,6 @@ impl Prop for C04 {
             pump: 14,
             quiesce: 5,
             hold_signer: 3,
-            hold_parent_syncs: 2,
             publisher: 0,
             restart: 0,
             max_advance: 2 * 86400,
